@@ -255,6 +255,11 @@ def enabled_events(tracks, w, kinds=None):
                     near.add(int(tracks.get_track_id(n)))
             here = {int(tracks.get_track_id(n)) for n in by_t.get(t, [])}
             ext = sorted(near - here)[:2] + sorted(near & here)[:1]
+            bg1 = _block_bg(tracks, t)
+            if bg1 is not None and t == 0:
+                # an eraser stroke over pure background: nothing changes, but the call is a
+                # successful top-level action all the same
+                ev.append(("paint", t, bg1, 0, nxt, False, "nochange"))
             for name, pix in strokes(tracks, t):
                 ev.append(("paint", t, pix, 0, nxt, False, name))
                 for m in labels:
@@ -425,6 +430,9 @@ def apply_event(tracks, w, ev, restore_on_refusal=True) -> Outcome:
             old = seg[idx].copy()
             changed = old != value
             if not changed.any():
+                if len(ev) > 6 and ev[6] == "nochange":
+                    out.painted = (idx, old.copy(), value)
+                    return UserUpdateSegmentation(tracks, value, [(idx, int(v)) for v in sorted(set(old.tolist()))][:1], tid, force=force)
                 out.noop = True
                 return None
             updated = []
